@@ -207,77 +207,92 @@ func typeCheckDominates(f *ssa.Function) (bool, string) {
 
 func ruleTREFPOS(p *Program, r *Reporter) {
 	const id = "T-REFPOS"
-	fd, pk, err := p.funcDecl("updates", "", "getReferenceModificationsFromColumn")
-	if err != nil {
+	root := p.Fn("updates", "", "getReferenceModificationsFromColumn")
+	if root == nil {
 		r.Anchor(id, "updates.getReferenceModificationsFromColumn")
 		return
 	}
-	info := pk.TypesInfo
-	arms := map[string]bool{}
-	ast.Inspect(fd.Body, func(n ast.Node) bool {
-		if ts, ok := n.(*ast.TypeSwitchStmt); ok {
-			for _, cc := range ts.Body.List {
-				for _, e := range cc.(*ast.CaseClause).List {
-					if tv, ok := info.Types[e]; ok && tv.IsType() {
-						arms[typeStr(tv.Type)] = true
+	// type tests (type-switch arms or comma-ok assertions) in the function and its private helpers
+	assertsTo := func(fns map[*ssa.Function]bool) map[string]int {
+		out := map[string]int{}
+		for fn := range fns {
+			for _, b := range fn.Blocks {
+				for _, ins := range b.Instrs {
+					if ta, ok := ins.(*ssa.TypeAssert); ok && ta.CommaOk {
+						out[typeStr(ta.AssertedType)]++
 					}
 				}
 			}
 		}
-		return true
-	})
-	for _, t := range []string{"ovsdb.UUID", "ovsdb.OvsSet", "ovsdb.OvsMap"} {
-		r.Ob(id, "updates.getReferenceModificationsFromColumn", "carrier "+t, fd.Pos(), arms[t], true,
-			ifs(arms[t], "references held in a "+t+" are extracted", "references held in a "+t+" are never extracted: they are invisible to referential integrity and garbage collection"))
+		return out
 	}
-	// the map extractor builds a key spec and a value spec (FromValue false / true)
-	fm, pk2, err := p.funcDecl("updates", "", "getReferenceModificationsFromMap")
-	if err != nil {
+	arms := assertsTo(p.PrivateRegion(root))
+	for _, t := range []string{"ovsdb.UUID", "ovsdb.OvsSet", "ovsdb.OvsMap"} {
+		ok := arms[t] > 0
+		r.Ob(id, funcName(root), "carrier "+t, root.Pos(), ok, true,
+			ifs(ok, "references held in a "+t+" are extracted", "references held in a "+t+" are never extracted: they are invisible to referential integrity and garbage collection"))
+	}
+	fm := p.Fn("updates", "", "getReferenceModificationsFromMap")
+	if fm == nil {
 		r.Anchor(id, "updates.getReferenceModificationsFromMap")
 		return
 	}
+	// the map extractor builds a key spec and a value spec (FromValue false / true)
+	pk2 := p.Pkgs["updates"]
 	seen := map[string]bool{}
-	ast.Inspect(fm.Body, func(n ast.Node) bool {
-		cl, ok := n.(*ast.CompositeLit)
-		if !ok {
-			return true
+	for fn := range p.PrivateRegion(fm) {
+		body, _ := bodyOf(fn)
+		if body == nil || fn.Parent() != nil {
+			continue
 		}
-		if tv, ok := pk2.TypesInfo.Types[cl]; !ok || typeStr(tv.Type) != "database.ReferenceSpec" {
-			return true
-		}
-		fromValue := "false"
-		for _, el := range cl.Elts {
-			if kv, ok := el.(*ast.KeyValueExpr); ok {
-				if id, ok := kv.Key.(*ast.Ident); ok && id.Name == "FromValue" {
-					if tv, ok := pk2.TypesInfo.Types[kv.Value]; ok && tv.Value != nil {
-						fromValue = tv.Value.String()
+		ast.Inspect(body, func(n ast.Node) bool {
+			cl, ok := n.(*ast.CompositeLit)
+			if !ok {
+				return true
+			}
+			if tv, ok := pk2.TypesInfo.Types[cl]; !ok || typeStr(tv.Type) != "database.ReferenceSpec" {
+				return true
+			}
+			fromValue := "false"
+			for _, el := range cl.Elts {
+				if kv, ok := el.(*ast.KeyValueExpr); ok {
+					if id, ok := kv.Key.(*ast.Ident); ok && id.Name == "FromValue" {
+						if tv, ok := pk2.TypesInfo.Types[kv.Value]; ok && tv.Value != nil {
+							fromValue = tv.Value.String()
+						}
 					}
 				}
 			}
-		}
-		seen[fromValue] = true
-		return true
-	})
+			seen[fromValue] = true
+			return true
+		})
+	}
 	for _, v := range []string{"false", "true"} {
 		what := map[string]string{"false": "key", "true": "value"}[v]
-		r.Ob(id, "updates.getReferenceModificationsFromMap", "map "+what+" position", fm.Pos(), seen[v], true,
+		r.Ob(id, funcName(fm), "map "+what+" position", fm.Pos(), seen[v], true,
 			ifs(seen[v], "references in the map "+what+" position are tracked", "no reference spec for the map "+what+" position"))
 	}
-	// both positions are used under a uuid type test of k and v
+	// both positions are tested for being a UUID: a type test in the function itself counts
+	// once, a call to a private helper that contains the test counts once per call
 	n := 0
-	ast.Inspect(fm.Body, func(x ast.Node) bool {
-		if ts, ok := x.(*ast.TypeSwitchStmt); ok {
-			for _, cc := range ts.Body.List {
-				for _, e := range cc.(*ast.CaseClause).List {
-					if tv, ok := pk2.TypesInfo.Types[e]; ok && tv.IsType() && typeStr(tv.Type) == "ovsdb.UUID" {
+	region := p.PrivateRegion(fm)
+	for _, b := range fm.Blocks {
+		for _, ins := range b.Instrs {
+			switch x := ins.(type) {
+			case *ssa.TypeAssert:
+				if x.CommaOk && typeStr(x.AssertedType) == "ovsdb.UUID" {
+					n++
+				}
+			case *ssa.Call:
+				if g := x.Call.StaticCallee(); g != nil && g != fm && region[g] {
+					if assertsTo(p.PrivateRegion(g))["ovsdb.UUID"] > 0 {
 						n++
 					}
 				}
 			}
 		}
-		return true
-	})
-	r.Ob(id, "updates.getReferenceModificationsFromMap", "uuid test per position", fm.Pos(), n >= 2, true,
+	}
+	r.Ob(id, funcName(fm), "uuid test per position", fm.Pos(), n >= 2, true,
 		ifs(n >= 2, "keys and values are each tested for being a UUID", fmt.Sprintf("only %d of the two map positions is inspected for UUIDs", n)))
 }
 
@@ -435,15 +450,22 @@ func ruleFPAIR(p *Program, r *Reporter) {
 			continue
 		}
 		info := pk.TypesInfo
-		ast.Inspect(fd.Body, func(x ast.Node) bool {
-			cc, ok := x.(*ast.CaseClause)
-			if !ok {
-				return true
+		// every conjunction "<kind of change> && <select flag>" in the function or its private
+		// helpers, whether it is a case label, an if condition or part of a larger boolean
+		var nodes []ast.Node
+		for fn := range p.PrivateRegion(p.Fn("server", "monitor", name)) {
+			if fn.Parent() == nil {
+				if b, _ := bodyOf(fn); b != nil {
+					nodes = append(nodes, b)
+				}
 			}
-			for _, e := range cc.List {
-				be, ok := ast.Unparen(e).(*ast.BinaryExpr)
+		}
+		_ = fd
+		for _, nd := range nodes {
+			ast.Inspect(nd, func(x ast.Node) bool {
+				be, ok := x.(*ast.BinaryExpr)
 				if !ok || be.Op != token.LAND {
-					continue
+					return true
 				}
 				kind := changeKindName(info, be.X)
 				sel := selectFlagName(info, be.Y)
@@ -455,15 +477,15 @@ func ruleFPAIR(p *Program, r *Reporter) {
 					}
 				}
 				if kind == "" || sel == "" {
-					continue
+					return true
 				}
 				n++
 				ok2 := strings.EqualFold(kind, sel)
-				r.Ob(id, "(*server.monitor)."+name, "kind "+kind, e.Pos(), ok2, true,
+				r.Ob(id, "(*server.monitor)."+name, "kind "+kind, be.Pos(), ok2, true,
 					ifs(ok2, kind+" changes are sent when select."+sel+" is set", "a "+kind+" change is filtered by the select flag for "+sel+": monitors receive kinds of change they did not ask for and miss those they did"))
-			}
-			return true
-		})
+				return true
+			})
+		}
 	}
 	if n < 6 {
 		r.Anchor(id, fmt.Sprintf("filter/filter2: %d kind/select pairs, expected 6", n))
@@ -785,50 +807,60 @@ func ruleGEN(p *Program, r *Reporter) {
 		r.Anchor(id, "ovsdb.NativeTypeFromAtomic / modelgen.AtomicType")
 		return
 	}
-	native := map[string]string{}
-	ast.Inspect(nfd.Body, func(x ast.Node) bool {
-		cc, ok := x.(*ast.CaseClause)
-		if !ok {
-			return true
-		}
-		goType := ""
-		for _, stt := range cc.Body {
-			if ret, ok := stt.(*ast.ReturnStmt); ok && len(ret.Results) == 1 {
-				if id, ok := ast.Unparen(ret.Results[0]).(*ast.Ident); ok {
-					if v, ok := npk.TypesInfo.Uses[id].(*types.Var); ok {
-						goType = reflectTypeOfInit(p, v)
+	// both tables are read from switch arms (case K: return V) or map literals {K: V},
+	// in the function itself, a helper it calls, or a package-level table it consults
+	table := func(pkgrel, name string, value func(info *types.Info, e ast.Expr) string) map[string]string {
+		out := map[string]string{}
+		info := p.Pkgs[pkgrel].TypesInfo
+		for _, nd := range p.siteNodes(pkgrel, "", name) {
+			ast.Inspect(nd, func(x ast.Node) bool {
+				switch t := x.(type) {
+				case *ast.CaseClause:
+					val := ""
+					for _, stt := range t.Body {
+						if ret, ok := stt.(*ast.ReturnStmt); ok && len(ret.Results) == 1 {
+							val = value(info, ret.Results[0])
+						}
+					}
+					for _, e := range t.List {
+						if tv, ok := info.Types[e]; ok && tv.Value != nil && tv.Value.Kind() == constant.String && val != "" {
+							out[constant.StringVal(tv.Value)] = val
+						}
+					}
+				case *ast.KeyValueExpr:
+					if tv, ok := info.Types[t.Key]; ok && tv.Value != nil && tv.Value.Kind() == constant.String {
+						if val := value(info, t.Value); val != "" {
+							out[constant.StringVal(tv.Value)] = val
+						}
 					}
 				}
+				return true
+			})
+		}
+		return out
+	}
+	native := table("ovsdb", "NativeTypeFromAtomic", func(info *types.Info, e ast.Expr) string {
+		if id, ok := ast.Unparen(e).(*ast.Ident); ok {
+			if v, ok := info.Uses[id].(*types.Var); ok {
+				return reflectTypeOfInit(p, v)
 			}
 		}
-		for _, e := range cc.List {
-			if tv, ok := npk.TypesInfo.Types[e]; ok && tv.Value != nil && tv.Value.Kind() == constant.String {
-				native[constant.StringVal(tv.Value)] = goType
-			}
-		}
-		return true
-	})
-	gen := map[string]string{}
-	ast.Inspect(afd.Body, func(x ast.Node) bool {
-		cc, ok := x.(*ast.CaseClause)
-		if !ok {
-			return true
-		}
-		goType := ""
-		for _, stt := range cc.Body {
-			if ret, ok := stt.(*ast.ReturnStmt); ok && len(ret.Results) == 1 {
-				if tv, ok := apk.TypesInfo.Types[ret.Results[0]]; ok && tv.Value != nil && tv.Value.Kind() == constant.String {
-					goType = constant.StringVal(tv.Value)
+		if call, ok := ast.Unparen(e).(*ast.CallExpr); ok && len(call.Args) == 1 {
+			if fn := calleeOf(info, call); fn != nil && fn.Pkg() != nil && fn.Pkg().Path() == "reflect" && fn.Name() == "TypeOf" {
+				if tv, ok := info.Types[call.Args[0]]; ok {
+					return types.Default(tv.Type).String()
 				}
 			}
 		}
-		for _, e := range cc.List {
-			if tv, ok := apk.TypesInfo.Types[e]; ok && tv.Value != nil && tv.Value.Kind() == constant.String {
-				gen[constant.StringVal(tv.Value)] = goType
-			}
-		}
-		return true
+		return ""
 	})
+	gen := table("modelgen", "AtomicType", func(info *types.Info, e ast.Expr) string {
+		if tv, ok := info.Types[e]; ok && tv.Value != nil && tv.Value.Kind() == constant.String {
+			return constant.StringVal(tv.Value)
+		}
+		return ""
+	})
+	_, _, _ = npk, apk, nfd
 	for _, c := range groups["atomic"].consts {
 		v := constant.StringVal(c.Val())
 		ok := native[v] != "" && native[v] == gen[v]
@@ -837,27 +869,63 @@ func ruleGEN(p *Program, r *Reporter) {
 	}
 	// shape decisions: the (min,max) pairs tested by fieldType and NativeType agree, in order
 	shape := func(pkgrel, name string) ([]string, token.Pos) {
-		fd, pk, err := p.funcDecl(pkgrel, "", name)
-		if err != nil {
+		root := p.Fn(pkgrel, "", name)
+		if root == nil {
 			return nil, token.NoPos
 		}
-		var out []string
-		ast.Inspect(fd.Body, func(x ast.Node) bool {
-			be, ok := x.(*ast.BinaryExpr)
-			if !ok || be.Op != token.LAND {
-				return true
+		accessor := func(v ssa.Value) (string, bool) {
+			bo, ok := v.(*ssa.BinOp)
+			if !ok || bo.Op != token.EQL {
+				return "", false
 			}
-			mn, ok1 := accessorEq(pk.TypesInfo, be.X)
-			mx, ok2 := accessorEq(pk.TypesInfo, be.Y)
-			if ok1 && ok2 {
-				pair := mn + "&&" + mx
-				if len(out) == 0 || out[len(out)-1] != pair {
-					out = append(out, pair)
+			c, ok := bo.X.(*ssa.Call)
+			if !ok || c.Call.StaticCallee() == nil {
+				return "", false
+			}
+			n := c.Call.StaticCallee().Name()
+			if n != "Min" && n != "Max" {
+				return "", false
+			}
+			k, ok := constInt(bo.Y)
+			if !ok {
+				return "", false
+			}
+			return fmt.Sprintf("%s==%d", n, k), true
+		}
+		type pr struct {
+			pos token.Pos
+			s   string
+		}
+		var prs []pr
+		for _, fn := range p.Reach(root) {
+			for _, b := range fn.Blocks {
+				for _, ins := range b.Instrs {
+					v, isVal := ins.(ssa.Value)
+					if !isVal {
+						continue
+					}
+					mx, ok := accessor(v)
+					if !ok || !strings.HasPrefix(mx, "Max") {
+						continue
+					}
+					// the Max test is evaluated only where the Min test held (a && b, nested ifs)
+					for _, f := range factsAt(b) {
+						cond, truth := normFact(f)
+						if mn, ok := accessor(cond); ok && truth && strings.HasPrefix(mn, "Min") {
+							prs = append(prs, pr{ins.Pos(), mn + "&&" + mx})
+						}
+					}
 				}
 			}
-			return true
-		})
-		return out, fd.Pos()
+		}
+		sort.Slice(prs, func(i, j int) bool { return prs[i].pos < prs[j].pos })
+		var out []string
+		for _, x := range prs {
+			if len(out) == 0 || out[len(out)-1] != x.s {
+				out = append(out, x.s)
+			}
+		}
+		return out, root.Pos()
 	}
 	a, apos := shape("ovsdb", "NativeType")
 	b, _ := shape("modelgen", "fieldType")
